@@ -89,6 +89,7 @@ func verifH_C18_connect() {
 	conn.coarse = verifParam("coarse", 1) == 1
 
 	err := c.connect()
+	verifTokensHome(c, "C10/C18(connect)")
 
 	tok := <-c.writeSem
 	c.writeSem <- tok
